@@ -68,9 +68,8 @@ def extract(ck):
                 "def f4ePairs : List ((Nat × Nat) × (Nat × Nat)) := %s\ndef f4nPairs : List ((Nat × Nat) × (Nat × Nat)) := %s\n"
                 "end QV.Gen.C12\n") % (L(rows, lambda r: L(r, lambda x: str(int(x)))), int(den), fmt(pe), fmt(pn))
     except (X.ExtractError, Exception) as e:
-        ck.tie_fail("extraction of M4 / the pairings failed: %r" % e)
-        return None
-    ck.gen("C12", body)
+        return ck.tie_fallback("C12", "extraction of M4 / the pairings failed: %r" % e)
+    ck.gen("C12", body, facts=True)
     return True
 
 
@@ -96,7 +95,7 @@ def run(ck):
                    "outside the orthogonal matrices and invariant under three explicit rotations from both sides; that the average over all "
                    "orientations (Haar average of SO(3)) exists and has these properties is classical and not constructed in Lean"]
     extract(ck)
-    ck.prove(PROPS, extra_modules=["QV.Drive.C12"], also=["QV.Props.C12Weyl", "QV.Props.C12Average", "QV.Props.C12Pref"])
+    ck.prove(PROPS, extra_modules=["QV.Drive.C12"], also=["QV.Props.C12Weyl", "QV.Props.C12Average", "QV.Props.C12Pref", "QV.Props.C12Design", "QV.Props.C12DesignT8"])
     X3, Y3, Z3 = np.eye(3)
     quiet = lambda: contextlib.redirect_stdout(io.StringIO())
 
